@@ -292,7 +292,7 @@ func (s *gsim) deliver(src, dst string) bool {
 	m := q[0]
 	s.chans[k] = q[1:]
 	d := s.nodes[dst]
-	if d.run != "up" || !s.canTalk(src, dst) {
+	if (d.run != "up" && d.run != "joining") || !s.canTalk(src, dst) {
 		s.ev(map[string]any{"e": "Dropped", "n": dst, "x": src})
 		return true
 	}
